@@ -93,6 +93,8 @@ def _param_names(pred):
 
 def _env_of(interp, frame, extra):
     env = {}
+    if interp.collect is not None:
+        env['yielded'] = interp.collect[1]
     if frame.info.filename.endswith('functools_model.py'):
         # library model: the call site's names are visible to the invariant
         for fr in reversed(interp.frame_stack):
@@ -110,8 +112,11 @@ def _env_of(interp, frame, extra):
 
 
 def _havoc(interp, frame, spec, modified_names, tag):
+    from .api import MListOf as _MListOf
     for name in modified_names:
         ty = spec.modifies.get(name)
+        if isinstance(ty, _MListOf):
+            continue
         if ty is None:
             raise Unsupported('loop %s#%s assigns %r which is not declared in modifies'
                               % (spec.qname, spec.ordinal, name))
@@ -119,18 +124,70 @@ def _havoc(interp, frame, spec, modified_names, tag):
             frame.locals.pop(name, None)
             continue
         frame.locals[name] = ty.make(interp, '%s@%s' % (name, tag))
+    from .api import MListOf
+    from .mlist import MList, from_concrete
     for name, ty in spec.modifies.items():
+        if isinstance(ty, MListOf) and '.' not in name and not name.startswith('ghost:'):
+            # a list mutated in place by the body: havoc the OBJECT (aliases see it), do not rebind
+            cur = frame.locals.get(name)
+            if cur is None:
+                for d in reversed(frame.enclosing):
+                    if name in d:
+                        cur = d[name]
+                        break
+            if isinstance(cur, list):
+                if cur:
+                    m = from_concrete(interp, cur, name)
+                else:
+                    m = MList(interp, interp.st.fresh_name(name), ty.shape())
+                # the concrete list object cannot become symbolic in place: rebind (sound only if the
+                # name is the single reference; object fields must be declared as 'obj.attr')
+                frame.locals[name] = m
+                cur = m
+            if isinstance(cur, MList):
+                if cur.shape is None:
+                    cur.shape = ty.shape()
+                cur.havoc(interp, tag)
+            elif name not in modified_names:
+                raise Unsupported('modifies %r: not a list' % name)
+    for name, ty in spec.modifies.items():
+        if isinstance(ty, MListOf) and '.' not in name and not name.startswith('ghost:'):
+            continue
+        if name == 'yielded':
+            if interp.collect is None:
+                raise Unsupported('modifies yielded outside a generator under verification')
+            ys = interp.collect[1]
+            n = interp.st.fresh_int('yielded.len@%s' % tag)
+            interp.st.assume(n >= 0)
+            ys.length = n
+            continue
         if name.startswith('ghost:'):
             # ghost state (interp.st.ghost) changed by models/contracts called in the body
             interp.st.ghost[name[6:]] = ty.make(interp, '%s@%s' % (name, tag))
             continue
+        if name == 'yielded':
+            continue
         if name not in modified_names and ty != 'local' and not name.startswith('@'):
             if '.' in name:
-                # object field:  'self._x'
-                base, _, attr = name.rpartition('.')
-                obj = frame.locals.get(base) if '.' not in base else None
+                # object field:  'self._x' / 'self._o.segments'
+                parts = name.split('.')
+                obj = frame.locals.get(parts[0])
                 if obj is None:
                     raise Unsupported('modifies entry %r: unknown base' % name)
+                for a in parts[1:-1]:
+                    obj = interp.getattr(obj, a)
+                attr = parts[-1]
+                if isinstance(ty, MListOf):
+                    cur = interp.getattr(obj, attr)
+                    if isinstance(cur, list):
+                        m = from_concrete(interp, cur, name) if cur else MList(interp, interp.st.fresh_name(name),
+                                                                               ty.shape())
+                        interp.setattr(obj, attr, m)
+                        cur = m
+                    if cur.shape is None:
+                        cur.shape = ty.shape()
+                    cur.havoc(interp, tag)
+                    continue
                 interp.setattr(obj, attr, ty.make(interp, '%s@%s' % (name, tag)))
             else:
                 frame.locals[name] = ty.make(interp, '%s@%s' % (name, tag))
@@ -289,7 +346,11 @@ def _for_symbolic(interp, node, frame, src):
         if it_cell is not None:
             it_cell.pos = wrap(i + 1)
         interp.assign(node.target, x, frame)
-        r = interp.exec_block(node.body, frame)
+        interp.loop_index_stack.append(i)
+        try:
+            r = interp.exec_block(node.body, frame)
+        finally:
+            interp.loop_index_stack.pop()
         if r is not None and r[0] != 'continue':
             if r[0] == 'break':
                 return None
